@@ -25,13 +25,15 @@ def render(val):
     return '%s@%s.%d(%s)' % (val['n'], val['k'], val['v'], ','.join(render(x) for x in ds))
 
 
-def script_text(df, ver, rule):
+def script_text(df, ver, rule, alias=None):
     """POSIX sh text of version `ver` of .do file `df`; rule = {target: [ops]}.  Names are project-relative;
     the script runs in the directory of `df`, so targets and dependencies are rewritten relative to it."""
     import posixpath
     here = posixpath.dirname(df)
 
     def rel(n):
+        if alias and n in alias:
+            return n                   # an alternative spelling is passed on as it is (flat programs only)
         return posixpath.relpath(n, here or '.')
     lines = ['# %s version %d (generated)' % (df, ver),
              'rd() { if [ -d "$1" ]; then tr -d "~" < "$1/data"; elif [ -e "$1" ]; then tr -d "~" < "$1"; else printf "@none.0()"; fi; }',
@@ -363,6 +365,8 @@ class Project:
             if os.path.exists(os.path.join(d, '.redo')):
                 raise RuntimeError('ancestor %s contains .redo' % d)
             d = os.path.dirname(d)
+        for dn in prog.get('mkdirs', []):
+            os.makedirs(os.path.join(self.dir, dn), exist_ok=True)
         for n in prog['init']:
             if n in prog['rules']:
                 self.write_do(n, 1)
@@ -400,7 +404,7 @@ class Project:
         self._write(n, render({'n': n, 'k': 'user', 'v': v, 'd': []}))
 
     def write_do(self, df, ver):
-        self._write(df, script_text(df, ver, self.prog['rules'][df][ver - 1]))
+        self._write(df, script_text(df, ver, self.prog['rules'][df][ver - 1], alias=self.prog.get('alias')))
 
     def remove(self, n):
         try:
@@ -584,6 +588,9 @@ class Project:
         if wl != snap.get('links', {}):
             diffs.append(('file', 'symbolic links: have %s, spec says %s' % (snap.get('links', {}), wl)))
         known = set(self.files) | {'//ALWAYS'}
+        for n in sorted(snap['rows']):
+            if n not in known and os.path.normpath(n) in known:
+                diffs.append(('rows', 'row %r: a second record for the file %s' % (n, os.path.normpath(n))))
         have_rows = {n: r for n, r in snap['rows'].items() if n in known}
         want_rows = exp['rows']
         # rowids: only their order matters (candidate .do files above the project consume ids)
